@@ -242,4 +242,10 @@ theorem C17_wiring2 :
     Sso.Generated.skel_okta_ValidateGroupMembership =
       ["if{", "return", "}", "call:len", "if{", "return", "}", "call:GetUserProfile", "if{", "return", "}", "call:len", "if{", "call:New", "return", "}", "range{", "range{", "if{", "call:append", "break", "}", "}", "}", "return"] := by decide
 
+/-- Tie (T1): the Google directory client's `listMemberships` — the fill function's source. An error while listing a nested group
+fails the whole listing (`return`), so that a partial member list is never handed to the cache as a successful refresh. The
+directory client cannot be driven offline; this skeleton is the only tie for it. -/
+theorem C17_skeleton_listMemberships : Sso.Generated.skel_gadmin_listMemberships =
+    ["for{", "call:Now", "call:List", "call:MaxResults", "if{", "call:PageToken", "}", "func{", "call:Do", "return", "}", "call:Call", "if{", "typeswitch{", "case{", "switch{", "case 400{", "call:Error", "if{", "}", "}", "case 404{", "}", "case 429{", "}", "case 503{", "}", "}", "}", "case{", "}", "case{", "}", "}", "return", "}", "range{", "switch{", "case \"USER\"{", "call:append", "}", "case \"GROUP\"{", "if{", "continue", "}", "call:listMemberships", "if{", "return", "}", "call:append", "}", "default{", "call:Errorf", "continue", "}", "}", "}", "if{", "break", "}", "}", "return"] := by decide
+
 end Sso.Caches
